@@ -76,6 +76,9 @@ impl Padding<'_> {
     fn dim(&self, dim: usize, spatial_dim_count: usize) -> Option<DimPadding> {
         match self {
             Padding::Same => Some(DimPadding::Same),
+            // Convolution operators that omit `kernel_shape` and `pads` have
+            // an empty padding list, meaning no padding.
+            Padding::Fixed([]) => Some(DimPadding::Fixed { start: 0, end: 0 }),
             Padding::Fixed(padding) => {
                 let start = *padding.get(dim)?;
                 let end = *padding.get(spatial_dim_count + dim)?;
@@ -83,6 +86,20 @@ impl Padding<'_> {
             }
         }
     }
+}
+
+/// Get the stride or dilation for a spatial dimension of a convolution.
+///
+/// The list is empty if the ONNX operator omitted the attribute together with
+/// `kernel_shape`, in which case the default of 1 applies.
+fn conv_attr_or_one(values: &[usize], dim: usize) -> Result<usize, InferShapesError> {
+    if values.is_empty() {
+        return Ok(1);
+    }
+    values
+        .get(dim)
+        .copied()
+        .ok_or(InferShapesError::InvalidValue)
 }
 
 /// Padding for a single spatial dimension.
@@ -138,11 +155,8 @@ impl InferShapes for Conv<'_> {
         let out_h = output_size(
             data_shape[2].clone(),
             weight_shape[2].clone(),
-            *self.strides.first().ok_or(InferShapesError::InvalidValue)?,
-            *self
-                .dilations
-                .first()
-                .ok_or(InferShapesError::InvalidValue)?,
+            conv_attr_or_one(self.strides, 0)?,
+            conv_attr_or_one(self.dilations, 0)?,
             pad_h,
             false,
         );
@@ -162,11 +176,8 @@ impl InferShapes for Conv<'_> {
             let out_w = output_size(
                 in_w,
                 k_w,
-                *self.strides.get(1).ok_or(InferShapesError::InvalidValue)?,
-                *self
-                    .dilations
-                    .get(1)
-                    .ok_or(InferShapesError::InvalidValue)?,
+                conv_attr_or_one(self.strides, 1)?,
+                conv_attr_or_one(self.dilations, 1)?,
                 pad_w,
                 false,
             );
@@ -258,11 +269,8 @@ impl InferShapes for ConvTranspose<'_> {
                 .padding
                 .dim(d, spatial_dims)
                 .ok_or(InferShapesError::InvalidValue)?;
-            let stride = *self.strides.get(d).ok_or(InferShapesError::InvalidValue)?;
-            let dilation = *self
-                .dilations
-                .get(d)
-                .ok_or(InferShapesError::InvalidValue)?;
+            let stride = conv_attr_or_one(self.strides, d)?;
+            let dilation = conv_attr_or_one(self.dilations, d)?;
             let out_pad = match self.output_padding {
                 Some(out_pad) => *out_pad.get(d).ok_or(InferShapesError::InvalidValue)?,
                 None => 0,
